@@ -119,20 +119,62 @@ for it in range(int(P.get("n", 4))):
                             "relerr_total": e, "phase_on_result": bool(phase_ok), "coeff_in_before": str(c0), "coeff_in_after": str(complex(st.coeff)),
                             "coeff_out": str(complex(out.coeff))})
     # ------------------------------------------------------------------ ThermalProp exact=True
-    for space in ("GS", "EX"):
-        init = MpDm.max_entangled_gs(model) if space == "GS" else MpDm.max_entangled_ex(model)
-        beta = float(rs.choice([0.1, 1.0, 4.0]))
-        nst = int(rs.choice([1, 3, 5]))
+    ndiag = [np.diag(np.arange(d, dtype=float)) for d in dims]
+
+    def site_op(k):
+        return kron_all([ndiag[i] if i == k else np.eye(d) for i, d in enumerate(dims)])
+    vsites = [i for i, k in enumerate(kinds) if k is not None]
+    hfull = np.asarray(Mpo(model).todense())
+
+    def thermal_exact(init, space, what, beta, nst):
+        """init: any purified density operator; reference = exp(-beta/2 H_loc) acting on the PHYSICAL (upper) index, normalised;
+        compared as dense operators and through Tr(rho^+ O rho)"""
+        global n_or
+        rho0 = dense_of(init)
         tp = ThermalProp(init.copy(), exact=True, space=space)
         tp.evolve(evolve_dt=-1j * beta / 2 / nst, nsteps=nst)
-        got = dense_of(tp.latest_mps)
-        rho0 = dense_of(init)
+        fin = tp.latest_mps
+        got = dense_of(fin)
         u = local_dense(kinds, -beta / 2, 0.0, space == "EX")
         ref = u @ rho0
         ref = ref / np.linalg.norm(ref)
         e = relerr(got, ref)
+        occ = [float(x) for x in np.real(fin.ph_occupations)]
+        occ_ref = [float(np.real(np.trace(ref.conj().T @ site_op(k) @ ref))) for k in vsites]
+        en, en_ref = float(np.real(tp.energies[-1])), float(np.real(np.trace(ref.conj().T @ hfull @ ref)))
+        dev = max([abs(a - b) for a, b in zip(occ, occ_ref)] + [abs(en - en_ref) / max(1.0, abs(en_ref))])
         n_or += 1
-        if not e <= 1e-10:
-            bad.append({"what": "ThermalProp exact", "space": space, "beta": beta, "nsteps": nst, "relerr": e})
+        if not (e <= 1e-9 and dev <= 1e-9):
+            bad.append({"what": "ThermalProp exact", "init": what, "space": space, "beta": beta, "nsteps": nst, "relerr_operator": e,
+                        "expectation_dev": dev, "ph_occupations": occ, "ph_occupations_ref": occ_ref})
+
+    def rank_one(psi, phi):
+        """|psi><phi| as a purified operator with off-diagonal structure (phi in the zero-exciton sector: the auxiliary
+        index carries no quantum number)"""
+        from renormalizer.mps.svd_qn import add_outer
+        o = MpDm.from_mps(psi)
+        for i, (a, b) in enumerate(zip(psi, phi)):
+            a, b = np.asarray(a.array), np.asarray(b.array)
+            t = np.einsum("apb,cqd->acpqbd", a, b).reshape(a.shape[0] * b.shape[0], a.shape[1], b.shape[1], a.shape[2] * b.shape[2])
+            o[i] = t
+        o.qn = [add_outer(np.array(q1), np.array(q2)).reshape(-1, q1.shape[1]) for q1, q2 in zip(psi.qn, phi.qn)]
+        o.coeff = psi.coeff * phi.coeff
+        return o
+
+    for space in ("GS", "EX"):
+        beta = float(rs.choice([0.1, 1.0, 4.0]))
+        nst = int(rs.choice([1, 3, 5]))
+        thermal_exact(MpDm.max_entangled_gs(model) if space == "GS" else MpDm.max_entangled_ex(model), space, "max-entangled", beta, nst)
+        # random operator |psi><phi| with off-diagonal structure (the propagator must act on the physical index)
+        np.random.seed(int(rs.randint(0, 2 ** 31 - 1)))
+        psi_ = Mps.random(model, 0 if space == "GS" else 1, 4, percent=1.0)
+        phi_ = Mps.random(model, 0, 3, percent=1.0)
+        thermal_exact(rank_one(psi_, phi_), space, "random |psi><phi|", beta, nst)
+    # vibrations equilibrated on the ground surface, vertical excitation a^dagger, cooling on the excited surface
+    tp0 = ThermalProp(MpDm.max_entangled_gs(model), exact=True, space="GS")
+    tp0.evolve(evolve_dt=-1j * float(rs.choice([0.5, 2.0])) / 2, nsteps=1)
+    exc = Mpo.onsite(model, r"a^\dagger").apply(tp0.latest_mps, canonicalise=True)
+    exc.normalize("mps_and_coeff")
+    thermal_exact(exc, "EX", "a^dagger thermal(GS)", float(rs.choice([0.5, 2.0, 4.0])), int(rs.choice([1, 3])))
 
 emit({"tie": tie, "bad": bad[:10], "nbad": len(bad), "n_oracle": n_or})
